@@ -10,9 +10,10 @@ solver is used: this is a dataflow analysis over a finite lattice made path-sens
 from .core import op_place, op_local, callee_def
 
 TOP = ("top", None)
-MAX_DEPTH = 7
-MAX_VISITS = 2
-MAX_PATHS = 4000
+import os as _os
+MAX_DEPTH = int(_os.environ.get('VERIF_KIND_DEPTH', 7))
+MAX_VISITS = int(_os.environ.get('VERIF_KIND_VISITS', 2))
+MAX_PATHS = int(_os.environ.get('VERIF_KIND_PATHS', 4000))
 
 
 def c(v):
@@ -362,10 +363,10 @@ class Interp:
                             st2 = dict(st)
                             fields = tuple(("field", cur if cur[0] != "top" else ("top", cur[1]), vn, i) for i in range(self.n_fields(adt, vn)))
                             self.write(st2, place, ("e", adt, vn, fields))
-                            work.append((bt, st2, conds + ((("is", _short(cur), vn)), ), events, visits))
-                elif any(ct == _short(v) for ct, _ in conds if not (isinstance(ct, tuple) and ct and ct[0] == "is")):
+                            work.append((bt, st2, conds + ((("is", _short(cur)), vn),), events, visits))
+                elif any(c[0] == _short(v) for c in conds if len(c) == 2 and not (isinstance(c[0], tuple) and c[0] and c[0][0] == "is")):
                     # the same condition term was decided earlier on this path: stay consistent
-                    taken = [tk for ct, tk in conds if ct == _short(v)][-1]
+                    taken = [c[1] for c in conds if len(c) == 2 and c[0] == _short(v)][-1]
                     tgt = None
                     for sv, bt in t["targets"]:
                         if sv == taken:
@@ -596,7 +597,7 @@ def _fork_enum(I, v, adt):
     out = []
     for vn in I.variants_of(adt) or []:
         fields = tuple(("field", v, vn, i) for i in range(I.n_fields(adt, vn)))
-        out.append((("e", adt, vn, fields), ((("is", _short(v), vn)),)))
+        out.append((("e", adt, vn, fields), ((("is", _short(v)), vn),)))
     return out
 
 
